@@ -155,6 +155,7 @@ type univFact struct {
 	guard   []*sx
 	binders []*sx // (name sort)
 	body    *sx
+	def     bool // comes from a definitional axiom (append, copy, conversions): its instances feed the next round
 }
 
 // stripBang removes (! body :pattern ...) annotations.
@@ -430,17 +431,24 @@ func (p *instPass) patternsFor(body *sx, v string, others map[string]bool) []fun
 
 // run performs the pass on a query: decl lines, assertion terms (context) and the goal formula.
 // It returns extra declarations and extra assertions (instances + the skolemised negated goal).
-func (p *instPass) run(context []*sx, goalGuard, goal *sx) (extraDecls []string, extra []*sx, negGoal *sx) {
+func (p *instPass) run(context []*sx, nDefs int, goalGuard, goal *sx) (extraDecls []string, extra []*sx, negGoal *sx) {
 	negGoal = p.negate(goal)
 	var facts []univFact
-	for _, a := range context {
+	for i, a := range context {
+		before := len(facts)
 		collectUniversals(a, nil, &facts)
+		if i < nDefs {
+			for j := before; j < len(facts); j++ {
+				facts[j].def = true
+			}
+		}
 	}
 	// universals inside the (positive part of the) negated goal's hypotheses
 	collectUniversals(negGoal, nil, &facts)
 	emitted := map[string]bool{}
 	total := 0
 	all := append(append([]*sx{}, context...), negGoal, goalGuard)
+	var feedback []*sx // instances whose reads are harvested in the next round
 	for round := 0; round < 2; round++ {
 		// ground index terms in priority order: the goal first, then the context from the most
 		// recent assertion backwards (caps then cut the least relevant candidates)
@@ -463,6 +471,9 @@ func (p *instPass) run(context []*sx, goalGuard, goal *sx) (extraDecls []string,
 		}
 		harvest(negGoal)
 		harvest(goalGuard)
+		for i := len(feedback) - 1; i >= 0; i-- {
+			harvest(feedback[i])
+		}
 		for i := len(all) - 1; i >= 0; i-- {
 			harvest(all[i])
 		}
@@ -541,6 +552,9 @@ func (p *instPass) run(context []*sx, goalGuard, goal *sx) (extraDecls []string,
 				if !emitted[k] {
 					emitted[k] = true
 					added = append(added, term)
+					if f.def {
+						feedback = append(feedback, term)
+					}
 					count++
 					total++
 				}
@@ -563,22 +577,7 @@ func (p *instPass) run(context []*sx, goalGuard, goal *sx) (extraDecls []string,
 					return
 				}
 				if i == len(names) {
-					inst := subst(f.body, m)
-					var term *sx
-					if len(f.guard) > 0 {
-						g := []*sx{atom("and")}
-						g = append(g, f.guard...)
-						term = lst(atom("=>"), lst(g...), inst)
-					} else {
-						term = inst
-					}
-					k := term.String()
-					if !emitted[k] {
-						emitted[k] = true
-						added = append(added, term)
-						count++
-						total++
-					}
+					emit(m)
 					return
 				}
 				for _, c := range cands[names[i]] {
@@ -596,7 +595,6 @@ func (p *instPass) run(context []*sx, goalGuard, goal *sx) (extraDecls []string,
 			break
 		}
 		extra = append(extra, added...)
-		all = append(all, added...)
 	}
 	return p.decls, extra, negGoal
 }
